@@ -103,7 +103,7 @@ Theorem all_kinds_round_trip :
        (forall t, sv_at c2 t = sv_at c0 t) /\
        (forall t, kiai_at c2 t = kiai_at c0 t) /\
        (forall t, scroll_at c2 t = scroll_at c0 t)) /\
-      Forall2 (final_rel lm0) (hov_hit_objects (bmv_ho m)) (hov_hit_objects (bmv_ho m2)).
+      Forall2 (final_rel_decoded lm0) (hov_hit_objects (bmv_ho m)) (hov_hit_objects (bmv_ho m2)).
 Proof.
   intros f64 f32 fi Hfmt Hlead H32. pose proof all_kinds_facts as W.
   destruct (decode_beatmap (dist_real lm0) (lines_of_text all_kinds_text)) as [m| |] eqn:Ed; try contradiction.
